@@ -29,12 +29,18 @@ CHECKS = {
          "Each accepted row must arrive as one DataRow whose fields decode (independent text and binary decoders) to the written values, NULL as length -1; the encode path memoises plans per connection, so the order in which Go types were encoded earlier is part of the explored space.", "3 C09"),
  "C10": ("exploration", E1, "deterministic simulation: enumerated boundary grid (limit x type x size x position) plus seeded sizes up to 2^32-5 with synthetic bodies that spell valid messages, size-rule model, allocation counters, segmentation of the skipped body",
          "Boundary exactness (L vs L+1), full skipping in several chunks, exactly one 54000 error, recovery of the next message, connection end during startup/authentication, sub-minimum lengths; the boundary grid is enumerated completely, the rest is seeded.", "3 C10"),
+ "C11": ("exploration", E2 + " (real crypto/tls client task) + " + E1, "deterministic simulation: a real crypto/tls client goroutine and the server goroutine are tasks of the seeded scheduler over a tapped simulated duplex connection; wire-tap record framing + canary, TLS-versus-plaintext differential",
+         "'S' iff certificates, everything after it is TLS records with no canary on the wire, the decrypted session and the callback trace equal the plaintext run, stuffed plaintext / odd negotiations never reach a callback, 'N' continues in plaintext.", "3 C11"),
  "C12": ("exploration", E1 + " + " + E2 + " (-race shard)", "deterministic simulation: seeded startup packets and configurations, multiset model of the startup reply, context read-back in callbacks, map immutability; concurrent users under seeded schedules with the HB-transparent race oracle",
          "Client parameters seen in callbacks equal the packet's pairs, the startup reply announces exactly the configured set once, the user's map is unchanged and never raced on, cancel packets get no reply and no callback.", "3 C12"),
  "C14": ("exploration", E1, "deterministic simulation where the chunking of the COPY stream into CopyData messages is the schedule: exhaustive 2- and 3-piece splits of short streams, seeded splits and corruptions, independent binary-COPY encoder, row equality",
          "Rows returned by the library's row reader must equal the rows encoded by an independent encoder for every split of the stream; trailer/CopyDone are end-of-stream; corrupt rows are errors, never rows or crashes.", "3 C14"),
  "C18": ("exploration", E1, "deterministic simulation: callbacks retain zero-copy data across seeded later traffic sized around the 4 KiB allocation granule and the limit; retained-vs-private-copy comparison, white-box buffer-window probes",
          "Every retained query text, parameter value, client parameter and password must keep its content after any later message history; probes show both buffer-reuse branches were reached.", "3 C18"),
+ "C15": ("exploration", E2 + " (-race shard)", "deterministic simulation: solo-versus-concurrent differential of the real code against itself under seeded interleavings, plus the Go race detector made schedule-exact by an HB-transparent scheduler",
+         "Each connection's transcript and callback trace under every explored interleaving must equal its solo run; the race oracle sees only the library's own synchronisation, so an unsynchronised shared access is reported deterministically with a replayable schedule.", "3 C15"),
+ "C16": ("exploration", E2 + " (hooks + spliced schedule points, -race shard)", "deterministic simulation: seeded and hold-until-plan interleavings of Close callers with connections in every state, event-order monitor over global sequence numbers, deadlock detection, panic capture",
+         "No Close-caller panic, no handler interval straddling a Close return, no handler start after Close returned, every Close returns, Serve returns nil; interleavings are steered through every synchronisation operation of Close and command admission.", "3 C16"),
  "C19": ("exploration", E1, "deterministic simulation: seeded middleware chains, failure positions, terminate hooks and command histories; event-order monitor plus context inspection inside every callback",
          "Order and once-only execution of middlewares, context propagation into every parser/statement call, cancellation of per-command contexts, failing middleware ends the connection, Terminate hook exactly once.", "3 C19"),
  "C13": ("exploration", E1, "deterministic simulation: seeded COPY-in sub-protocol histories and handler read plans, COPY model + exactly-once abort cycle count",
